@@ -55,12 +55,18 @@ TYPE_TO_JSON_TYPE = {
 }
 
 
+def _found_type(cls: type) -> str:
+    # data is not necessarily JSON-like: it can be an instance of a subclass
+    # of a JSON class, or of any other class
+    for base in cls.__mro__:
+        if base in TYPE_TO_JSON_TYPE:
+            return TYPE_TO_JSON_TYPE[base].value
+    return cls.__name__
+
+
 def bad_type(data: Any, *expected: type) -> ValidationError:
-    msgs = [
-        f"expected type {JsonType.from_type(tp)},"
-        f" found {JsonType.from_type(data.__class__)}"
-        for tp in expected
-    ]
+    found = _found_type(data.__class__)
+    msgs = [f"expected type {JsonType.from_type(tp)}, found {found}" for tp in expected]
     return ValidationError(msgs)
 
 
